@@ -38,7 +38,12 @@ def _corr_level(rng, family):
         return float(10 ** rng.uniform(-6, -2))
     # cWMM / cACGMM: below ~3e-3 the Watson concentration sits at max_concentration and the smallest cACG eigenvalue
     # approaches the floor (c02's guards); most cases are drawn where a good share is guard-free, the rest below
-    if rng.random() < 0.75:
+    r = rng.random()
+    if family == 'cwmm' and r < 0.3:
+        # just OUTSIDE C03's domain (perturbation 3e-2 .. 1e-1): the only place where both Watson iterates stay below
+        # max_concentration, so that the complete step (PCA + spline contract) is compared on clustered data as well
+        return float(10 ** rng.uniform(np.log10(3e-2), -1))
+    if r < 0.8:
         return float(10 ** rng.uniform(np.log10(3e-3), -2))
     return float(10 ** rng.uniform(-6, np.log10(3e-3)))
 
@@ -113,6 +118,29 @@ def _argmax_compare(ctx, c, m, post_model, guard):
     return post_code
 
 
+def _compare_guarded(ctx, c, m_next, g, post_code, guard):
+    """A guard shaped the code's iterate i or i + 1 (Watson concentration clipped at max_concentration / smallest cACG
+    eigenvalue near the floor): C02's step-wise comparison excludes such cases.  On C03's domain that is every cWMM
+    step from the second iterate on, so the parts of the step that do not depend on the guard by construction are still
+    compared: the E-step of the code's iterate, the new mixture weights, and (cWMM) the PCA contract of the new mode
+    against the model's scatter matrix."""
+    family, F, K, D, N = c['family'], c['F'], c['K'], c['D'], c['N']
+    data = {k: c[k] for k in ('y', 'init', 'opts', 'i')}
+    tag = f'{family} K={K} D={D} N={N} level={c["level"]:.2e} i={c["i"]} guard={guard}'
+    ok, d = c02._close(g[1].reshape(post_code.shape), post_code, scale=1.0)
+    ctx.corr(f'eStep-guarded[{family}]', ok, f'{tag}: {d}', data)
+    ok, d = c02._close(g[2].reshape(K, F * N), c02._flat_kn(m_next.weight, F, K, N), scale=1.0)
+    ctx.corr(f'mWeight-guarded[{family}]', ok, f'{tag}: {d}', data)
+    if family == 'cwmm':
+        cov = g[3].view(np.complex128).reshape(K, D, D)
+        mode = m_next.complex_watson.mode
+        for k in range(K):
+            ev = np.linalg.eigvalsh((cov[k] + cov[k].conj().T) / 2)
+            res = float(np.linalg.norm(cov[k] @ mode[0, k] - ev[-1] * mode[0, k]))
+            ctx.corr(f'mstep-pca-contract-guarded[{family}]', res <= 1e-9,
+                     f'{tag}: class {k}: |S m - lambda_max m| = {res:.3e}', data)
+
+
 def corr(ctx):
     rng = ctx.rng
     n = ctx.n(40, 600)
@@ -141,6 +169,8 @@ def corr(ctx):
         ctx.count(f'corr-wca:{c["wca"]}')
         ctx.count(f'corr-K:{c["K"]}')
         ctx.count('corr-level:1e%d' % int(np.floor(np.log10(c['level']))))
+        if c['level'] > 1e-2:
+            ctx.count(f'corr-level-beyond-domain:{family}')
     outs = run_driver(lines, exe='driver_em')
     for c, (m, m_next, guard), out in zip(cases, models, outs):
         family = c['family']
@@ -162,11 +192,7 @@ def corr(ctx):
                          f'{float(np.max(np.abs(cov))):.3e}', {k: c[k] for k in ('y', 'init', 'opts', 'i')})
         post_code = _argmax_compare(ctx, c, m, g[1], guard)
         if guard is not None:
-            # a guard (concentration clipped at max_concentration / eigenvalue at the floor) shaped the code's M-step,
-            # which the step-wise comparison of C02 excludes; the E-step of the code's iterate does not depend on it
-            ok, d = c02._close(g[1].reshape(post_code.shape), post_code, scale=1.0)
-            ctx.corr(f'eStep-guarded[{family}]', ok, f'{family} level={c["level"]:.2e} i={c["i"]} guard={guard}: {d}',
-                     {k: c[k] for k in ('y', 'init', 'opts', 'i')})
+            _compare_guarded(ctx, c, m_next, g, post_code, guard)
     if cases:
         c = cases[0]
         ctx.sample({'op': 'em-step-on-separable-scene', 'family': c['family'], 'K': c['K'], 'D': c['D'], 'N': c['N'],
